@@ -12,8 +12,8 @@ CLAIMED = {
              "Shape evaluator): matrix entries, positions, boxes and derivative seeds are symbolic on a lattice where real arithmetic is exact in f32 "
              "(k/4, homogeneous coordinate a power of two), so the assertions are exact and independent of operation order: the point result is "
              "(M p)/w, the box result contains the image of every point of the box, the gradient lanes are the quotient-rule derivative for "
-             "arbitrary seeds. Quick: one symbolic upper row + symbolic w (A_0..A_2) and a fully symbolic projective bottom row (B); thorough adds the "
-             "point harness with all 16 entries symbolic.",
+             "arbitrary seeds. Quick: one symbolic upper row + symbolic w (A_0..A_2) and a symbolic projective bottom row (B: whole row for points, one linear entry "
+             "+ m33 per harness for gradients); thorough adds the whole bottom row for gradients, a larger lattice for boxes and the point harness with all 16 entries.",
         design="DESIGN.md §2 C14",
         note="Trusted: Kani/CBMC. Outside: binding of variables by identity (ShapeVars/VarMap hash maps and Vec scratch buffers are not tractable "
              "under CBMC here), values off the lattice, all 16 entries symbolic at once for Interval/Grad (>10 min, harnesses kept as c14_x_*), "
